@@ -51,6 +51,7 @@ Definition show_err (e : err) : string :=
   | ESubceeded c => "U " +++ show_info c
   | EDepleted cc => "D " +++ show_oz cc
   | ESuperfluous rest cc => "S " +++ show_hex_ rest +++ " " +++ show_oz cc
+  | EEncMismatch p ex fo => "M /" +++ show_path p +++ (if ex then " 1" else " 0") +++ (if fo then " 1" else " 0")
   end.
 
 Definition show_oevent (e : oevent) : string :=
